@@ -28,6 +28,14 @@ C14  The tree transformer applies exactly the requested node mapping.
      with empty and non-empty body -- an unmapped node is never dropped.
      (``as_tuple`` / ``is_iterable`` are modelled: nodes are atomic, tuples are
      iterated; the model is tied to ``_is_atomic_iterable_ir_node`` in their source.)
+ R8  drop guard: a mapped node is dropped exactly when ``mapper[o] is None`` --
+     the guard in front of ``return None`` is evaluated for None, a plain node, a
+     block node that is *falsy* because its body is empty (``Section`` defines
+     ``__len__``), and tuples: only ``None`` may drop.
+ R9  one-to-many splicing reaches every occurrence: the loop condition that
+     repeats the splice in ``_inject_tuple_mapping`` is evaluated for "occurrence
+     left in the tail" x "replacement contains the node itself": it must depend
+     on the tail only.
 Not decided: that the result equals a reference rebuild.
 """
 import ast
@@ -82,6 +90,87 @@ def _as_tuple(x):
 
 def _is_iterable(x):
     return isinstance(x, (tuple, list))
+
+
+def _r8_r9(ctx):
+    from sa.miniev import ev_ext, Unknown
+    m = ctx.model
+    ctx.rule('R8', 'visit_Node / visit_ScopedNode (Transformer, NestedTransformer): the guard of the dropping `return None` holds for '
+                   'mapper[o] = None only (not for falsy replacement nodes such as an empty Section)')
+    ctx.rule('R9', '_inject_tuple_mapping: the splice is repeated while the mapped node occurs in the rest of the tuple, whatever the '
+                   'replacement contains')
+    shapes = {'None': (None, True), 'a plain node': (_N('h'), False), 'an empty Section (falsy)': (_Block('s', 0), False),
+              'a non-empty Section': (_Block('s', 2), False), 'a non-empty tuple': ((_N('a'), _N('b')), False)}
+    n8 = 0
+    for cn in ('Transformer', 'NestedTransformer'):
+        C = m.get_class(FILE, cn)
+        for hn in ('visit_Node', 'visit_ScopedNode'):
+            f = C.function(hn)
+            if f is None:
+                continue
+            hnames = X.names_assigned_from(f.node, 'self.mapper[') + X.names_assigned_from(f.node, 'self.mapper.get(')
+            if not hnames:
+                continue
+            hname = hnames[0]
+            drops = [(n, g) for n, g in X.nodes_with_guards(f.node, lambda x: isinstance(x, ast.Return) and (
+                x.value is None or (isinstance(x.value, ast.Constant) and x.value.value is None)), early=True)]
+            drops = [(n, [g for g in gs if hname in g and 'self.mapper' not in g]) for n, gs in drops]
+            drops = [(n, gs) for n, gs in drops if gs]
+            if not drops:
+                raise AnalysisError(f'{cn}.{hn}: the dropping `return None` for a node mapped to None was not found')
+            for node, gs in drops:
+                n8 += 1
+                for name, (h, want) in shapes.items():
+                    env = {hname: h, 'o': _N('o'), 'as_tuple': _as_tuple, 'is_iterable': _is_iterable}
+                    try:
+                        got = all(ev_ext(ast.parse(g, mode='eval').body, env) for g in gs)
+                    except Unknown as u:
+                        raise AnalysisError(f'{cn}.{hn}: drop guard uses `{u}`, outside the evaluated fragment')
+                    inst = f'{cn}.{hn}:drop:{name}'
+                    if bool(got) == want:
+                        ctx.judge('R8', inst, facts={'guard': gs})
+                    else:
+                        ctx.violation('R8', inst, f'{f.module.relpath}:{node.lineno}',
+                                      f'with mapper[o] = {name} the guard `{" and ".join(gs)}` is {bool(got)}: the node is '
+                                      f'{"dropped instead of being replaced" if got else "kept although it is mapped to None"}')
+    ctx.floor('R8', 'drop guards', n8, 3)
+    T = m.get_class(FILE, 'Transformer')
+    f = T.function('_inject_tuple_mapping')
+    if f is None:
+        raise AnalysisError('Transformer._inject_tuple_mapping vanished')
+    loops = [w for w in ast.walk(f.node) if isinstance(w, ast.While)]
+    fors = [l for l in ast.walk(f.node) if isinstance(l, ast.For) and '.items()' in ast.unparse(l.iter) and isinstance(l.target, ast.Tuple)]
+    if len(loops) != 1 or len(fors) != 1:
+        raise AnalysisError('_inject_tuple_mapping: repetition loop / mapper loop not found')
+    kn, hn_ = (e.id for e in fors[0].target.elts)
+    seq = [a.arg for a in f.node.args.args][1]
+    idx = next((t.elts[1].id for a in ast.walk(fors[0]) if isinstance(a, ast.Assign) for t in a.targets
+                if isinstance(t, ast.Tuple) and len(t.elts) == 2 and isinstance(t.elts[1], ast.Name)), None)
+    if idx is None:
+        raise AnalysisError('_inject_tuple_mapping: position variable of the splice not found')
+    k = _N('k')
+    rows = 0
+    for tail_has in (True, False):
+        for handle_has in (True, False):
+            handle = (k, _N('x')) if handle_has else (_N('x'), _N('y'))
+            o_ = (_N('p'),) + handle + ((_N('q'), k) if tail_has else (_N('q'),))
+            env = {kn: k, hn_: handle, seq: o_, idx: 1 + len(handle), 'is_iterable': _is_iterable, 'as_tuple': _as_tuple}
+            try:
+                got = bool(ev_ext(loops[0].test, env))
+            except Unknown as u:
+                raise AnalysisError(f'_inject_tuple_mapping: loop condition uses `{u}`, outside the evaluated fragment')
+            rows += 1
+            inst = f'_inject_tuple_mapping:repeat:tail={tail_has},handle-contains-node={handle_has}'
+            if got == tail_has:
+                ctx.judge('R9', inst)
+            else:
+                ctx.violation('R9', 'Transformer._inject_tuple_mapping:repeat', f'{f.module.relpath}:{loops[0].lineno}',
+                              f'`while {ast.unparse(loops[0].test)}` is {got} when the mapped node '
+                              f'{"still occurs" if tail_has else "no longer occurs"} in the rest of the tuple and the replacement '
+                              f'{"contains" if handle_has else "does not contain"} the node: '
+                              f'{"later occurrences are not spliced, the inserted nodes are silently missing there" if tail_has else "the splice is attempted with nothing left"}',
+                              instance=inst)
+    ctx.floor('R9', 'loop-condition rows', rows, 4)
 
 
 def _r6_r7(ctx):
@@ -302,8 +391,12 @@ def run(ctx):
                               f'is silently ignored', instance=inst)
 
     _r6_r7(ctx)
+    _r8_r9(ctx)
 
 MUTANTS = [
+    Mutant('drop-falsy-handle', FILE, "            handle = self.mapper[o]\n            if handle is None:", "            handle = self.mapper[o]\n            if not handle:",
+           count=2, expect=('R8', 'drop:an empty Section')),
+    Mutant('splice-first-occurrence-only', FILE, "                while k in o[i:]:", "                while k in o[i:] and k not in handle:", expect=('R9', 'repeat')),
     Mutant('replace-guard-as-tuple', FILE, "            if not is_iterable(handle) or o not in handle:\n                return handle._rebuild(**handle.args)\n\n        rebuilt = tuple(",
            "            if o not in as_tuple(handle):\n                return handle._rebuild(**handle.args)\n\n        rebuilt = tuple(", expect=('R6', 'visit_Node:replace:a node equal to o')),
     Mutant('tuple-filter-by-len', FILE, "        visited = tuple(self.visit(i, **kwargs) for i in o)\n\n        # Strip empty sublists/subtuples or None entries\n        return tuple(i for i in visited if i is not None and as_tuple(i))\n",
